@@ -36,6 +36,7 @@ type SOp struct {
 	Poison bool   `json:"poison,omitempty"`
 	Mode   string `json:"mode,omitempty"` // fail: panic | failed
 	ID     int    `json:"id,omitempty"`
+	Queued int    `json:"queued,omitempty"` // fail: this many messages are sent right behind the failing one
 }
 
 type SCase struct {
@@ -44,7 +45,8 @@ type SCase struct {
 	SysDec    []string `json:"sysDec"`    // system strategy (one-for-one), for escalations and for s itself
 	Provider  bool     `json:"provider"`  // x has a provider
 	Grandkid  bool     `json:"grandkid"`  // x has a child z
-	FailMode  string   `json:"failMode"`  // how x fails: panic | failed
+	First     string   `json:"first"`     // which child fails first: s/x | s/y
+	FailMode  string   `json:"failMode"`  // how it fails: panic | failed
 	Queued    int      `json:"queued"`    // messages queued behind the failing one
 	Park      string   `json:"park"`      // which actor is parked: s | s/x | s/y
 	Point     int      `json:"point"`
@@ -62,15 +64,15 @@ func (c SCase) Describe() string {
 			case "kill":
 				s = append(s, fmt.Sprintf("kill(%s, poison=%v)", o.Target, o.Poison))
 			case "fail":
-				s = append(s, fmt.Sprintf("fail(%s, %s)", o.Target, o.Mode))
+				s = append(s, fmt.Sprintf("fail(%s, %s, %d queued behind)", o.Target, o.Mode, o.Queued))
 			default:
 				s = append(s, fmt.Sprintf("tell#%d(%s)", o.ID, o.Target))
 			}
 		}
 		return strings.Join(s, " ")
 	}
-	return fmt.Sprintf("s{%s:%s} system{one:%s} children x(provider=%v, grandchild=%v) y | x fails (%s) with %d messages queued behind | %s parked at its window point %d | meanwhile: %s | released | then: %s",
-		c.Strategy, strings.Join(c.Decisions, ","), strings.Join(c.SysDec, ","), c.Provider, c.Grandkid, c.FailMode, c.Queued, c.Park, c.Point, f(c.Intr), f(c.Post))
+	return fmt.Sprintf("s{%s:%s} system{one:%s} children x(provider=%v, grandchild=%v) y | %s fails (%s) with %d messages queued behind | %s parked at its window point %d | meanwhile: %s | released | then: %s",
+		c.Strategy, strings.Join(c.Decisions, ","), strings.Join(c.SysDec, ","), c.Provider, c.Grandkid, c.First, c.FailMode, c.Queued, c.Park, c.Point, f(c.Intr), f(c.Post))
 }
 
 var decisions = []string{"restart", "grestart", "stop", "gstop", "resume", "escalate"}
@@ -89,6 +91,9 @@ func genOps(t *rapid.T, n int, id *int, grandkid bool) []SOp {
 			o.Poison = rapid.Bool().Draw(t, "poison")
 		case "fail":
 			o.Mode = rapid.SampledFrom([]string{"panic", "failed"}).Draw(t, "mode")
+			o.Queued = rapid.IntRange(0, 3).Draw(t, "queuedBehind")
+			o.ID = *id + 1
+			*id += o.Queued
 		case "tell":
 			*id++
 			o.ID = *id
@@ -108,6 +113,7 @@ func genCase(t *rapid.T) SCase {
 	}
 	c.Provider = rapid.Bool().Draw(t, "provider")
 	c.Grandkid = rapid.IntRange(0, 2).Draw(t, "grandkid") == 0
+	c.First = rapid.SampledFrom([]string{"s/x", "s/x", "s/y"}).Draw(t, "first")
 	c.FailMode = rapid.SampledFrom([]string{"panic", "failed"}).Draw(t, "failMode")
 	c.Queued = rapid.IntRange(0, 3).Draw(t, "queued")
 	c.Park = rapid.SampledFrom([]string{"s", "s", "s/x", "s/x", "s/y"}).Draw(t, "park")
@@ -149,15 +155,22 @@ func runAt(t *testing.T, c SCase, point int) (v *verdict, nontrivial bool, label
 			vt.Settle()
 		}
 		var sent []int
+		sentTo := map[int]string{}
 		exec := func(o SOp) {
 			switch o.Kind {
 			case "kill":
 				w.Kill(o.Target, "", o.Poison)
 			case "fail":
 				w.Tell(o.Target, "", 0, []world.Step{{Op: o.Mode}})
+				for k := 0; k < o.Queued; k++ {
+					w.Tell(o.Target, "", o.ID+k, nil)
+					sent = append(sent, o.ID+k)
+					sentTo[o.ID+k] = o.Target
+				}
 			case "tell":
 				w.Tell(o.Target, "", o.ID, nil)
 				sent = append(sent, o.ID)
+				sentTo[o.ID] = o.Target
 			}
 		}
 		// ---- arm the window, then x fails with mail queued behind the failing message
@@ -187,11 +200,16 @@ func runAt(t *testing.T, c SCase, point int) (v *verdict, nontrivial bool, label
 			}
 		}
 		defer func() { actor.VerifWindowHook = nil }()
-		w.Tell("s/x", "", 0, []world.Step{{Op: c.FailMode}})
+		first := c.First
+		if first == "" {
+			first = "s/x"
+		}
+		w.Tell(first, "", 0, []world.Step{{Op: c.FailMode}})
 		for i := 0; i < c.Queued; i++ {
 			id := 1000 + i
-			w.Tell("s/x", "", id, nil)
+			w.Tell(first, "", id, nil)
 			sent = append(sent, id)
+			sentTo[id] = first
 		}
 		vt.Settle()
 		isParked := false
@@ -287,6 +305,48 @@ func runAt(t *testing.T, c SCase, point int) (v *verdict, nontrivial bool, label
 			case !alive[p] && !zombieEver && handled[id]+dead[id] != 1:
 				v = &verdict{"C09/window|probe-lost", fmt.Sprintf("%s is not registered at quiescence; a message sent to its address afterwards was handled %d times and dead-lettered %d times (%s); case: %s", p, handled[id], dead[id], where, c.Describe())}
 				return
+			}
+		}
+		// ---- nobody was killed and every decision taken was an immediate Restart or Resume: every actor lives on (in a new
+		// incarnation or the old one), so every message has to be delivered - a dead letter means mail was dropped on the way
+		// ("queued mail survives restart")
+		immediateOnly := !zombieEver
+		for _, o := range append(append([]SOp{}, c.Intr...), c.Post...) {
+			if o.Kind == "kill" {
+				immediateOnly = false
+			}
+		}
+		for _, cs := range w.ConsultsCopy() {
+			if cs.Decision != "restart" && cs.Decision != "resume" {
+				immediateOnly = false
+			}
+		}
+		if immediateOnly {
+			lab["only-immediate-decisions"] = true
+			// a restart terminates the children of the restarted actor for good: only addressees that are alive at the end
+			// and none of whose ancestors was ever restarted are judged
+			disturbed := map[string]bool{}
+			for _, o := range obs {
+				if o.Type == "Restarting" || o.Type == "Restarted" || o.Type == "Killed" {
+					disturbed[o.Actor] = true
+				}
+			}
+			for _, id := range sent {
+				p := world.Path(sentTo[id])
+				ok := alive[p]
+				for a := p; ok && strings.LastIndex(a, "/") > 0; {
+					a = a[:strings.LastIndex(a, "/")]
+					if disturbed[a] {
+						ok = false
+					}
+				}
+				if !ok {
+					continue
+				}
+				if dead[id] > 0 {
+					v = &verdict{"C09/window|queued-mail|dropped", fmt.Sprintf("nobody was killed and every decision was Restart or Resume, yet message %d was dead-lettered instead of delivered (%s); consults: %s; case: %s", id, where, consults(w), c.Describe())}
+					return
+				}
 			}
 		}
 		// ---- everything sent in between ended in exactly one place (zombies consume silently: the documented exception)
